@@ -134,3 +134,110 @@ func (w *World) pureIfaceMethod(it types.Type, m *types.Func) bool {
 	w.mu.Unlock()
 	return res
 }
+
+// isReader: the function writes nothing but its own locals and calls only readers; its results are a
+// deterministic function of its arguments and the heap it is called in.
+func (w *World) isReader(f *ssa.Function, depth int) bool {
+	if f == nil || len(f.Blocks) == 0 || depth > 3 {
+		return false
+	}
+	w.mu.Lock()
+	if v, ok := w.readerMemo[f]; ok {
+		w.mu.Unlock()
+		return v
+	}
+	w.mu.Unlock()
+	local := func(v ssa.Value) bool {
+		for {
+			switch x := v.(type) {
+			case *ssa.Alloc:
+				return true
+			case *ssa.FieldAddr:
+				v = x.X
+			case *ssa.IndexAddr:
+				if _, ok := x.X.Type().Underlying().(*types.Pointer); ok {
+					v = x.X
+				} else {
+					return false
+				}
+			default:
+				return false
+			}
+		}
+	}
+	res := true
+	for _, b := range f.Blocks {
+		for _, in := range b.Instrs {
+			switch x := in.(type) {
+			case *ssa.Store:
+				if !local(x.Addr) {
+					res = false
+				}
+			case *ssa.MapUpdate, *ssa.Go, *ssa.Defer, *ssa.Panic, *ssa.MakeClosure, *ssa.Send:
+				res = false
+			case *ssa.Call:
+				if bi, ok := x.Call.Value.(*ssa.Builtin); ok {
+					if bi.Name() != "len" && bi.Name() != "cap" {
+						res = false
+					}
+					continue
+				}
+				c := x.Call.StaticCallee()
+				if c == nil || !w.isReader(c, depth+1) {
+					res = false
+				}
+			}
+		}
+	}
+	w.mu.Lock()
+	w.readerMemo[f] = res
+	w.mu.Unlock()
+	return res
+}
+
+// readerIfaceMethod: every implementation of the interface method is a reader.
+func (w *World) readerIfaceMethod(it types.Type, m *types.Func) bool {
+	key := "R:" + it.String() + "." + m.Name()
+	w.mu.Lock()
+	if v, ok := w.pureMemo[key]; ok {
+		w.mu.Unlock()
+		return v
+	}
+	w.mu.Unlock()
+	iface, ok := it.Underlying().(*types.Interface)
+	res := ok
+	n := 0
+	if ok {
+		for _, T := range w.prog.RuntimeTypes() {
+			if _, isI := T.Underlying().(*types.Interface); isI {
+				continue
+			}
+			if !types.Implements(T, iface) {
+				continue
+			}
+			sel := w.prog.MethodSets.MethodSet(T).Lookup(m.Pkg(), m.Name())
+			if sel == nil {
+				continue
+			}
+			fn := w.prog.MethodValue(sel)
+			if fn == nil {
+				continue
+			}
+			if fn.Synthetic != "" {
+				continue // wrappers of methods counted at their declaring type
+			}
+			n++
+			if !w.isReader(fn, 0) {
+				res = false
+				break
+			}
+		}
+	}
+	if n == 0 {
+		res = false
+	}
+	w.mu.Lock()
+	w.pureMemo[key] = res
+	w.mu.Unlock()
+	return res
+}
